@@ -136,6 +136,7 @@ def _dmrg_(psi, H : MpsMpoOBC | Sequence[tuple[MpsMpoOBC, float]], project, meth
 
     if not psi.is_canonical(to='first'):
         psi.canonize_(to='first')
+    psi.factor = 1  # work with a normalized state, also when psi came canonical with its norm kept in the factor
 
     env = Env(psi, [H, psi], precompute=precompute)
     if project:
